@@ -30,7 +30,10 @@ def gen_case(r, i, tier):
     if width == "f32":
         ll, lp, lq = (np.clip(v, -1e30, 1e30).astype(np.float32).astype(np.float64) for v in (ll, lp, lq))
     b0 = float(r.choice([0.0, 0.0, r.uniform(0, 0.9)]))
-    b1 = float(r.choice([1.0, r.uniform(b0, 1.0), min(1.0, b0 + 10 ** r.uniform(-6, -1))]))
+    b1 = float(r.choice([1.0, r.uniform(b0, 1.0), min(1.0, b0 + 10 ** r.uniform(-6, -1)), min(1.0, b0 + 10 ** r.uniform(-12, -7))]))
+    if b1 - b0 < 1e-6 and kind in ("moderate", "peaked"):
+        # a tiny temperature move is only visible in the weights when the log-weights are huge
+        ll = ll * (10 ** r.uniform(8, 11) / max(1.0, float(np.max(np.abs(ll)))))
     if b1 <= b0:
         b1 = min(1.0, b0 + 0.1)
     x = r.normal(0, 1, (n, d))
